@@ -360,6 +360,49 @@ Proof.
   - cbn in HO. subst e. rewrite bytes_eqb_refl. cbn [fst snd]. split; [apply OUT; reflexivity|apply REL].
 Qed.
 
+(* ---- refused calls on a closed series (C17 at the level of the judge): a create of the series that exists - with any payload
+        size and any header, the "create, else open" start-up of an application -, and an open that demands another payload size:
+        an error on both sides, every file stays what it is ---- *)
+Lemma relc_closed_world w s l : RelC w s l -> RelC {| w_fs := w_fs w; w_h := None |} s l.
+Proof. intros (Hw & Rest). split; [reflexivity|exact Rest]. Qed.
+
+Theorem new_refused_accepted w s l p' hdr' cb : RelC w s l ->
+  snd (judge_step s (ONew name p' hdr' [] cb)) (snd (step' w (ONew name p' hdr' [] cb))) = true
+  /\ RelC (fst (step' w (ONew name p' hdr' [] cb))) (fst (judge_step s (ONew name p' hdr' [] cb))) l.
+Proof.
+  intros RC. pose proof RC as (Hw & Hs & (sr & R & N1 & N2) & Oth & F & DET).
+  pose proof (rd_file _ _ _ _ _ _ _ _ (rh_data _ _ _ _ _ _ R)) as [GD _]. rewrite N1 in GD.
+  assert (M : fs_mem (w_fs w) (name ++ ext_data) = true) by (rewrite CacheFacts.fs_mem_get, GD; reflexivity).
+  assert (SM : sfs_mem (ss_fs s) (name ++ s_ext_data) = true).
+  { unfold sfs_mem. change (name ++ s_ext_data) with (name ++ ext_data). rewrite <- F, GD. reflexivity. }
+  assert (E : exists e, series_new name p' hdr' [] cb (w_fs w) = (w_fs w, Err e)).
+  { destruct (N.le_gt_cases (len (params_to_text BSgen.Consts.version p' ++ hdr')) 65535) as [LE|GT].
+    - exists EExists. apply new_over_existing; assumption.
+    - exists EHeaderTooLarge. apply new_header_too_large. lia. }
+  destruct E as (e & E).
+  cbn [step' step w_fs]. rewrite E. cbn [fst snd].
+  unfold judge_step, spec_step. rewrite Hs. cbn [spec_step']. unfold spec_new. rewrite (close_handle_closed _ _ s Hs).
+  cbn [existsb]. rewrite SM. cbn [fst snd is_err].
+  split; [reflexivity|]. apply relc_closed_world. exact RC.
+Qed.
+
+Theorem open_other_p_accepted w s l q hdropt cb : RelC w s l -> q <> N.of_nat p ->
+  snd (judge_step s (OOpen name (Some q) hdropt [] cb)) (snd (step' w (OOpen name (Some q) hdropt [] cb))) = true
+  /\ RelC (fst (step' w (OOpen name (Some q) hdropt [] cb))) (fst (judge_step s (OOpen name (Some q) hdropt [] cb))) l.
+Proof.
+  intros RC Hq. pose proof RC as (Hw & Hs & (sr & R & N1 & N2) & Oth & F & DET).
+  pose proof (rd_file _ _ _ _ _ _ _ _ (rh_data _ _ _ _ _ _ R)) as [GD _]. rewrite N1 in GD.
+  assert (SD : sfs_get (ss_fs s) (name ++ ext_data) = Some (outer header ++ encode p l)) by (rewrite <- F; exact GD).
+  pose proof (open_other_payload p (w_fs w) name hdr (encode p l) q [] cb Hh Hp Hq GD) as E.
+  cbn [step' step w_fs]. unfold builder_open. erewrite mbind_err by exact E. cbn [fst snd].
+  unfold judge_step, spec_step. rewrite Hs. cbn [spec_step']. unfold spec_open. rewrite (close_handle_closed _ _ s Hs). cbn [existsb].
+  change (name ++ s_ext_data) with (name ++ ext_data). rewrite SD.
+  pose proof (parse_file_ok (N.of_nat p) hdr (encode p l) Hp Hh) as PF. cbv zeta in PF. fold header in PF.
+  rewrite PF. cbn [pf_p]. rewrite Nat2N.id.
+  replace (q =? N.of_nat p)%N with false by (symmetry; apply N.eqb_neq; exact Hq). cbn [negb fst snd is_err open_err].
+  split; [reflexivity|]. apply relc_closed_world. exact RC.
+Qed.
+
 (* ---- crashes: the data file cut at any byte of its data region, the index file lost or cut at any byte, then an open ---- *)
 Definition closed_agree (w:world) (s:sstate) : Prop :=
   w_h w = None /\ ss_h s = None /\ (forall g, fs_get (w_fs w) g = sfs_get (ss_fs s) g).
@@ -561,14 +604,36 @@ Proof.
 Qed.
 
 (* ---- histories with clean close-and-reopen steps in between (C04 at the level of the judge) ---- *)
+(* calls that are refused on the closed series, between a close and the next open *)
+Inductive rtry := TryNew (p':N) (hdr':list byte) (cb:cbmode) | TryOpenP (q:N) (hdropt:hdropt) (cb:cbmode).
+Definition try_op (t:rtry) : op :=
+  match t with TryNew a b c => ONew name a b [] c | TryOpenP q h c => OOpen name (Some q) h [] c end.
+Definition try_valid (t:rtry) : Prop := match t with TryNew _ _ _ => True | TryOpenP q _ _ => q <> N.of_nat p end.
+
+Lemma tries_accepted : forall tries w s l rest, RelC w s l -> Forall try_valid tries ->
+  (forall w' s', RelC w' s' l -> accepted w' s' rest) -> accepted w s (map try_op tries ++ rest).
+Proof.
+  induction tries as [|t ts IH]; intros w s l rest RC V K; [apply K; exact RC|].
+  inversion V as [|? ? Vt Vts]; subst. cbn [map app accepted].
+  destruct t as [a b c|q h c]; cbn [try_op try_valid] in *.
+  - destruct (new_refused_accepted w s l a b c RC) as (OK & RC').
+    split; [exact OK|]. split; [exact (relc_files _ _ _ RC')|]. split; [destruct RC' as (_ & _ & _ & _ & _ & D); exact D|].
+    apply (IH _ _ l rest RC' Vts K).
+  - destruct (open_other_p_accepted w s l q h c RC Vt) as (OK & RC').
+    split; [exact OK|]. split; [exact (relc_files _ _ _ RC')|]. split; [destruct RC' as (_ & _ & _ & _ & _ & D); exact D|].
+    apply (IH _ _ l rest RC' Vts K).
+Qed.
+
 Inductive hstep := HOp (o:op) | HReopen (popt:option N) (hdropt:hdropt) (cb:cbmode)
-  | HCrash (kd:N) (i:ifault) (popt:option N) (hdropt:hdropt) (cb:cbmode).
+  | HCrash (kd:N) (i:ifault) (popt:option N) (hdropt:hdropt) (cb:cbmode)
+  | HRefused (tries:list rtry) (popt:option N) (hdropt:hdropt) (cb:cbmode).
 Fixpoint flatten (hs:list hstep) : list op :=
   match hs with
   | [] => []
   | HOp o :: t => o :: flatten t
   | HReopen a b c :: t => OClose :: OOpen name a b [] c :: flatten t
   | HCrash kd i a b c :: t => OClose :: OFsCut (name ++ ext_data) kd :: ifault_ops i ++ OOpen name a b [] c :: flatten t
+  | HRefused tries a b c :: t => OClose :: map try_op tries ++ OOpen name a b [] c :: flatten t
   end.
 Fixpoint hvalid (l:list line) (hs:list hstep) : Prop :=
   match hs with
@@ -577,6 +642,7 @@ Fixpoint hvalid (l:list line) (hs:list hstep) : Prop :=
   | HReopen a b _ :: t => reopen_valid l a b /\ hvalid l t
   | HCrash kd _ a b _ :: t => (kd <= len (encode p l))%N /\ reopen_valid l a b
                               /\ hvalid (firstn (complete p (length (encode p l) - N.to_nat kd) l) l) t
+  | HRefused tries a b _ :: t => Forall try_valid tries /\ reopen_valid l a b /\ hvalid l t
   end.
 
 Lemma relc_det w s l : RelC w s l -> ss_det s = true.
@@ -584,7 +650,7 @@ Proof. intros (_ & _ & _ & _ & _ & D). exact D. Qed.
 
 Lemma hist_accepted : forall hs w s l, Rel w s l -> hvalid l hs -> accepted w s (flatten hs).
 Proof.
-  induction hs as [|[o|a b c|kd i a b c] t IH]; intros w s l RL V; [exact I| | |].
+  induction hs as [|[o|a b c|kd i a b c|tries a b c] t IH]; intros w s l RL V; [exact I| | | |].
   - destruct V as [SO Vt]. destruct (step_accepted w s l o RL SO) as (OK & RL').
     cbn [flatten accepted]. split; [exact OK|]. split; [exact (rel_files _ _ _ RL')|]. split; [exact (rel_det _ _ _ RL')|].
     exact (IH _ _ _ RL' Vt).
@@ -610,6 +676,12 @@ Proof.
       cbn [accepted]. split; [exact OKi|]. split; [exact (relx_files _ _ _ _ RX2)|]. split; [exact (relx_det _ _ _ _ RX2)|].
       split; [exact OK3|]. split; [exact (rel_files _ _ _ RL3)|]. split; [exact (rel_det _ _ _ RL3)|].
       exact (IH _ _ _ RL3 Vt).
+  - destruct V as (TV & RO & Vt). destruct (close_accepted w s l RL) as (OK1 & RC).
+    cbn [flatten accepted]. split; [exact OK1|]. split; [exact (relc_files _ _ _ RC)|]. split; [exact (relc_det _ _ _ RC)|].
+    apply (tries_accepted tries _ _ l _ RC TV). intros w' s' RC'.
+    destruct (open_accepted _ _ l a b c RC' RO) as (OK2 & RL2).
+    cbn [accepted]. split; [exact OK2|]. split; [exact (rel_files _ _ _ RL2)|]. split; [exact (rel_det _ _ _ RL2)|].
+    exact (IH _ _ _ RL2 Vt).
 Qed.
 
 Theorem history_accepted cb hs : hvalid [] hs ->
@@ -627,7 +699,8 @@ Example history_accepted_example :
   let pay := [x01; x02; x03; x04] in
   hvalid 4 [] [] [HOp (OPush 10 pay); HOp (OPush 70000 pay); HReopen None HdrAny CbNone; HOp (OPush 5 pay); HOp (OPush 70001 pay);
                   HOp (OReadAll (Incl 11) Unb); HOp (OReadN 2 Unb Unb); HOp (ONLines Unb (Excl 70001));
-                  HCrash 3 IRm None HdrAny CbNone; HOp OLen; HOp (OPush 70001 pay); HCrash 0 (ICut 5) (Some 4%N) (HdrIs []) CbDeny; HOp OLen].
+                  HCrash 3 IRm None HdrAny CbNone; HOp OLen; HOp (OPush 70001 pay); HCrash 0 (ICut 5) (Some 4%N) (HdrIs []) CbDeny; HOp OLen;
+                  HRefused [TryNew 4 [] CbNone; TryOpenP 5 HdrAny CbNone; TryNew 7 [x01] CbDeny] None HdrAny CbNone; HOp OLen].
 Proof.
   cbv zeta.
   assert (NM : forall m, Forall (nm_sec 4) (secs_of m)) by (intros m; apply Forall_forall; intros sct _; apply nm_p4; lia).
@@ -636,6 +709,7 @@ Proof.
          | |- _ /\ _ => split
          | |- sess_op _ => constructor
          | |- Forall (nm_sec 4) _ => apply NM
+         | |- Forall (try_valid _) _ => repeat constructor; cbn [try_valid]; try exact I; try (intros Q; discriminate Q)
          | |- True => exact I
          end; try (vm_compute; reflexivity); try lia; try (left; reflexivity); try (right; reflexivity); try reflexivity;
     try (apply N.leb_le; vm_compute; reflexivity); try (apply N.ltb_lt; vm_compute; reflexivity).
